@@ -16,7 +16,7 @@ Open Scope Qc_scope.
    does not exceed dw *)
 Theorem C13_common_grid :
   forall (o : binop) (s1 s2 : spectrum) (m : sampling) (f : fillv) (r : rspectrum),
-  wf s1 -> wf s2 -> spec_op o s1 s2 m f = Ok r ->
+  wf s1 -> wf s2 -> match m with SNum d => 0 < d | _ => True end -> spec_op o s1 s2 m f = Ok r ->
   let w1 := wave s1 in let w2 := wave (conv s2 (wu s1)) in
   let mn := qmin (wmin w1) (wmin w2) in let mx := qmax (wmax w1) (wmax w2) in
   exists (dw : Qc) (num : Z),
@@ -66,11 +66,12 @@ Print Assumptions C13_denotation_is_a_function.
    spacing is needed) - whatever the fill value *)
 Theorem C13_raises_only_for_undefined_sampling :
   forall (o : binop) (s1 s2 : spectrum) (m : sampling) (f : fillv),
+  wf s1 -> wf s2 -> match m with SNum d => 0 < d | _ => True end ->
   match spec_op o s1 s2 m f with
   | Ok _ => exists dw, sampling_of (wave s1) (wave (conv s2 (wu s1))) m = Ok dw
   | Err e => sampling_of (wave s1) (wave (conv s2 (wu s1))) m = Err e
   end.
-Proof. exact spec_op_errors. Qed.
+Proof. exact spec_op_errors_pos. Qed.
 Print Assumptions C13_raises_only_for_undefined_sampling.
 
 (* the two-element fill value: at every grid wavelength each operand contributes lo below its OWN range,
@@ -202,3 +203,133 @@ Example C13_nonvacuous :
   | Err _ => False end.
 Proof. unfold wf. simpl incr. repeat split; try discriminate; try reflexivity.
   all: vm_compute; repeat split; try reflexivity; f_equal; apply Qc_is_canon; reflexivity. Qed.
+
+(* ================================================================== the public entry points with all their arguments
+   [spec_call mt o s1 s2 a f] is  s1.<o>(s2, sampling=a, method=mt, fill_value=f)  for every argument FORM:
+   a = AOk m (a valid sampling: 'min' / 'left' / 'right' / a non-zero number), ABadStr (any other string), ABadOther
+   (None, tuple, list, array); mt one of the documented kinds or a name scipy does not know.  [method_call] adds the
+   dispatch on the operand kind.  Proofs in Proofs/SpectrumCallP.v. *)
+From LV Require Import Proofs.SpectrumCallP.
+
+(* on well-formed operands, linear interpolation and a valid sampling the entry point IS the operation of the
+   theorems above *)
+Theorem C13_call_is_spec_op :
+  forall (o : binop) (s1 s2 : spectrum) (m : sampling) (f : fillv), wf s1 -> wf s2 ->
+  spec_call MLinear o s1 s2 (AOk m) f = spec_op o s1 s2 m f.
+Proof. exact call_is_spec_op. Qed.
+Print Assumptions C13_call_is_spec_op.
+
+(* the complete refusal table, in the order the code meets the arguments; the seven cases are exhaustive and
+   mutually exclusive, so they determine for EVERY input whether the call returns and which exception it raises:
+   empty operand -> ValueError; sampling of another type -> ValueError; unknown sampling string -> TypeError;
+   undefined sampling (a one-sample operand whose spacing is needed, or 0) -> ValueError; sample count
+   ceil(range/sampling) + 1 < 0 -> ValueError; unknown method -> NotImplementedError; fewer samples than the spline
+   order + 1 in either operand -> ValueError; otherwise a result on linspace(mn, mx, num + 1) in the left operand's
+   units with one value per grid point *)
+Theorem C13_call_refusal_table :
+  forall (mt : meth) (o : binop) (s1 s2 : spectrum) (a : sampling_arg) (f : fillv),
+  let w1 := wave s1 in let w2 := wave (conv s2 (wu s1)) in
+  let mn := qmin (wmin w1) (wmin w2) in let mx := qmax (wmax w1) (wmax w2) in
+  let E := spec_call mt o s1 s2 a f in
+  (w1 = [] \/ w2 = [] -> E = Err ValueError) /\
+  (w1 <> [] -> w2 <> [] ->
+     (a = ABadOther -> E = Err ValueError) /\
+     (a = ABadStr -> E = Err TypeError) /\
+     (forall m, a = AOk m ->
+        (forall e, sampling_of w1 w2 m = Err e -> e = ValueError /\ E = Err ValueError) /\
+        (forall dw, sampling_of w1 w2 m = Ok dw ->
+           let num := qceil ((mx - mn) / dw) in
+           ((num < -1)%Z -> E = Err ValueError) /\
+           ((-1 <= num)%Z ->
+              (mt = MUnknown -> E = Err NotImplementedErr) /\
+              (mt <> MUnknown -> (length w1 < meth_min_points mt)%nat \/ (length w2 < meth_min_points mt)%nat ->
+                 E = Err ValueError) /\
+              (mt <> MUnknown -> (meth_min_points mt <= length w1)%nat -> (meth_min_points mt <= length w2)%nat ->
+                 exists r, E = Ok r /\ rwave r = linspace mn mx num /\ rwu r = wu s1 /\ rvu r = vu s1 /\
+                           length (rvalue r) = length (rwave r)))))).
+Proof. exact refusal_table. Qed.
+Print Assumptions C13_call_refusal_table.
+
+(* "all interpolation options": the grid, the units and every value at a wavelength where neither operand is
+   defined are the same for the quadratic and cubic kinds as for the linear one (for which C13_common_grid and
+   C13_pointwise hold); the spline values inside an operand's range are scipy's and stay unmodelled *)
+Theorem C13_grid_independent_of_method :
+  forall (mt : meth) (o : binop) (s1 s2 : spectrum) (m : sampling) (f : fillv) (r : rspectrum),
+  wave s1 <> [] -> wave (conv s2 (wu s1)) <> [] ->
+  spec_call mt o s1 s2 (AOk m) f = Ok r ->
+  exists r', spec_call MLinear o s1 s2 (AOk m) f = Ok r' /\
+    rwave r = rwave r' /\ rwu r = rwu r' /\ rvu r = rvu r' /\
+    length (rvalue r) = length (rwave r) /\ length (rvalue r') = length (rwave r) /\
+    forall i, (i < length (rwave r))%nat ->
+      nth i (rvalue r) XUnmodelled = nth i (rvalue r') XUnmodelled \/
+      (mt <> MLinear /\ nth i (rvalue r) XUnmodelled = XUnmodelled /\
+       (inrange (wave s1) (nth i (rwave r) 0) = true \/ inrange (wave (conv s2 (wu s1))) (nth i (rwave r) 0) = true)).
+Proof. exact call_grid_any_method. Qed.
+Print Assumptions C13_grid_independent_of_method.
+
+(* a NEGATIVE numeric sampling is not refused as such: the count ceil(range/d) is <= 0; below -1 numpy.linspace
+   refuses it (ValueError), -1 gives an EMPTY spectrum, 0 a one-point spectrum at the lower end of the union
+   (whose value is still pointwise by C13_pointwise) *)
+Theorem C13_negative_sampling :
+  forall (o : binop) (s1 s2 : spectrum) (d : Qc) (f : fillv), wf s1 -> wf s2 -> d < 0 ->
+  let w1 := wave s1 in let w2 := wave (conv s2 (wu s1)) in
+  let mn := qmin (wmin w1) (wmin w2) in let mx := qmax (wmax w1) (wmax w2) in
+  let num := qceil ((mx - mn) / d) in
+  (num <= 0)%Z /\
+  ((num < -1)%Z -> spec_op o s1 s2 (SNum d) f = Err ValueError) /\
+  (num = (-1)%Z -> spec_op o s1 s2 (SNum d) f = Ok (mkR [] [] (wu s1) (vu s1))) /\
+  (num = 0%Z -> exists r, spec_op o s1 s2 (SNum d) f = Ok r /\ rwave r = [mn] /\ length (rvalue r) = 1%nat).
+Proof. exact negative_sampling. Qed.
+Print Assumptions C13_negative_sampling.
+
+(* a scalar or vector operand never looks at sampling, method or fill_value - not even at invalid ones; an
+   unsupported operand type is refused before them *)
+Theorem C13_scalar_vector_ignore_options :
+  forall (mt : meth) (o : binop) (s : spectrum) (a : sampling_arg) (f : fillv) (c : Qc) (l : list Qc),
+  method_call mt o s (PScalar c) a f = Ok (scalar_op o s c) /\
+  method_call mt o s (PVector l) a f = vector_op o s l /\
+  method_call mt o s POther a f = Err TypeError.
+Proof. exact method_call_ignores. Qed.
+Print Assumptions C13_scalar_vector_ignore_options.
+
+(* the constructor: accepted exactly for positive, strictly increasing wavelengths with as many values; the
+   object then holds exactly what was given; every refusal is a ValueError *)
+Theorem C13_constructor :
+  forall (w v : list Qc) (u : wunit) (y : vunit),
+  ((forall x, In x w -> 0 < x) /\ incr w /\ length w = length v -> mk_spectrum w v u y = Ok (mkS w v u y)) /\
+  (~ ((forall x, In x w -> 0 < x) /\ incr w /\ length w = length v) -> mk_spectrum w v u y = Err ValueError) /\
+  (forall s, mk_spectrum w v u y = Ok s -> wave s = w /\ value s = v /\ wu s = u /\ vu s = y /\
+     (forall x, In x (wave s) -> 0 < x) /\ incr (wave s) /\ length (wave s) = length (value s)).
+Proof. exact mk_spectrum_spec. Qed.
+Print Assumptions C13_constructor.
+
+(* Spectrum.to(<wave unit>) - "the operands still describe the same physical spectrum": conversions compose,
+   converting to the unit the spectrum is in changes nothing, a round trip restores the spectrum exactly (wave,
+   density values, units), and well-formedness is kept *)
+Theorem C13_to_composes_and_round_trips :
+  forall (s : spectrum) (u v : wunit),
+  to_wu (to_wu s u) v = to_wu s v /\ to_wu s (wu s) = s /\ to_wu (to_wu s u) (wu s) = s /\ (wf s -> wf (to_wu s u)).
+Proof. exact to_wu_laws. Qed.
+Print Assumptions C13_to_composes_and_round_trips.
+
+(* non-vacuity of the new statements: one concrete call per row of the refusal table, a spline call, a negative
+   sampling, the constructor *)
+Definition exE := mkS [] [] UNm VNone.
+Definition exOne := mkS [zq 3] [zq 7] UNm VNone.
+Example C13_entry_points_nonvacuous :
+  spec_call MLinear OAdd exE exB (AOk SMin) (FScalar 0) = Err ValueError /\
+  spec_call MLinear OAdd exA exB ABadStr (FScalar 0) = Err TypeError /\
+  spec_call MLinear OAdd exA exB ABadOther (FScalar 0) = Err ValueError /\
+  spec_call MLinear OAdd exA exOne (AOk SMin) (FScalar 0) = Err ValueError /\
+  spec_call MUnknown OAdd exA exB (AOk SMin) (FScalar 0) = Err NotImplementedErr /\
+  spec_call MCubic OAdd exA exOne (AOk SLeft) (FScalar 0) = Err ValueError /\
+  spec_call MLinear OAdd exA exB (AOk (SNum (- zq 1))) (FScalar 0) = Err ValueError /\
+  spec_call MLinear OAdd exA exB (AOk (SNum (- zq 3))) (FScalar 0) = Ok (mkR [] [] UNm VNone) /\
+  match spec_call MCubic OAdd exA exB (AOk SMin) (FScalar 0) with
+  | Ok r => length (rwave r) = 6%nat /\ nth 0 (rvalue r) (XQ 0) = XUnmodelled | Err _ => False end /\
+  match spec_call MLinear OAdd exA exB (AOk (SNum (- zq 100))) (FScalar 0) with
+  | Ok r => map (fun q : Qc => Qnum q) (rwave r) = [1]%Z /\ map xnum (rvalue r) = [1]%Z | Err _ => False end /\
+  mk_spectrum (map zq [1; 1; 2]%Z) (map zq [1; 2; 3]%Z) UNm VNone = Err ValueError /\
+  (exists s, mk_spectrum (map zq [1; 2]%Z) (map zq [5; 6]%Z) UUm VFlam = Ok s).
+Proof. repeat split; try (vm_compute; reflexivity); try (vm_compute; repeat split; reflexivity).
+  vm_compute. eexists. reflexivity. Qed.
